@@ -1,38 +1,3 @@
-/-! GENERATED by tools/chanfacts from command_storer.go and runner.go — do not edit -/
-namespace Ysgo.Generated.ChanFacts
-/-- newYarnSpinnerCommand: `make(chan error, cap)` is lexically inside the closure returned for each call -/
-def perCall : Bool := true
-def cap : Nat := 1
-/-- the numbers of sends on that channel along the paths of the goroutine: per case of its switch, and overall -/
-def wrapperSendsPerCase : List (String × List Nat) := [("noReturn", [1]), ("errorReturn", [1])]
-def wrapperSends : List Nat := [1]
-/-- the switch and the early block cover every signature checkCommandOutputParameters accepts; every path of the early block returns -/
-def signaturesCovered : Bool := true
-def chanBranchReturns : Bool := true
-/-- every send of the closure is on the channel it made -/
-def closureSendsOnMade : Bool := true
-/-- waitCommand: the channel is made in the function body; capacity; sends of its goroutine -/
-def waitPerCall : Bool := true
-def waitCap : Nat := 1
-def waitSends : List Nat := [1]
-/-- chanWithImmediateValue -/
-def immPerCall : Bool := true
-def immCap : Nat := 1
-def immSends : List Nat := [1]
-/-- commandStorer.call, unknown command -/
-def unknownPerCall : Bool := true
-def unknownCap : Nat := 1
-/-- `close(` occurs in command_storer.go or runner.go -/
-def libraryCloses : Bool := false
-/-- the poll at the top of Next: guarded by `dr.commandErrChan != nil`; a select with one receive case and a default;
-the value branch assigns nil to commandErrChan; the default branch returns ErrWaitingForCommandCompletion -/
-def nextPollGuarded : Bool := true
-def nextPollIsSelectDefault : Bool := true
-def pollValueBranchClears : Bool := true
-def nextPollDefaultReturnsWaiting : Bool := true
-/-- the poll of executeCommandStatement on the channel returned by the dispatch; its default branch keeps the channel -/
-def execPollIsSelectDefault : Bool := true
-def execDefaultKeepsChannel : Bool := true
-/-- RestoreAt assigns nil to commandErrChan -/
-def restoreClears : Bool := true
-end Ysgo.Generated.ChanFacts
+-- extractor failed
+#eval (panic! "extractor chanfacts failed" : Nat)
+example : False := by trivial
